@@ -93,7 +93,7 @@ void harness_gens_parse(void) {
     secp256k1_context ctx; g_in_t in = nondet_g_in(); secp256k1_bppp_generators *g; size_t len = 33 * NG + ((in.extra & 1) ? 1 : 0);
     verif_ctx_init(&ctx); gp_fail_at = in.fail_at;
 #ifdef EXACTBUF
-    { unsigned char *xd = malloc(len ? len : 1); __CPROVER_assume(xd != NULL); memcpy(xd, in.data, len); g = secp256k1_bppp_generators_parse(&ctx, xd, len); free(xd); }
+    { unsigned char *xd = malloc(len); __CPROVER_assume(xd != NULL); memcpy(xd, in.data, len); g = secp256k1_bppp_generators_parse(&ctx, xd, len); free(xd); }
 #else
     g = secp256k1_bppp_generators_parse(&ctx, in.data, len);
 #endif
